@@ -26,6 +26,7 @@ def run(ctx):
     sig.s02_8_every_binding_verified(ctx, P)
     sig.s02_9_parallel_slots(ctx, P)
     sig.s02_10_result_slot_same_iteration(ctx, P)
+    sig.s02_11_every_key_tries_every_signature(ctx, P)
     from rules.tables import lossless_bool_subpackets
     lossless_bool_subpackets(ctx, P)
     # the digest covers what it must (shared with C11 / C16): sign/verify twins feed the same frames, every hashed subpacket is fed,
